@@ -163,7 +163,7 @@ func (w *World) VerifyFunc(fn *ssa.Function, mode *Mode, prop string) (x *X, err
 		}
 		post.bindResults(rnames, vals)
 		for _, en := range ct.Ensures {
-			if !x.active(en) {
+			if !x.active(en) || ct.Trusted {
 				continue
 			}
 			var t *Term
@@ -194,7 +194,7 @@ func normalizeModifies(names []string, fn *ssa.Function) []string {
 		case len(n) > 2 && n[1] == ':':
 			out = append(out, n)
 		case strings.HasPrefix(n, "contents("):
-			out = append(out, "E:")
+			out = append(out, contentsHeapName(n, fn))
 		default:
 			parts := strings.SplitN(n, ".", 2)
 			resolved := false
@@ -420,6 +420,7 @@ type RootSpec struct {
 }
 
 type CheckSpec struct {
+	Deferred []string   `json:"deferred,omitempty"` // analysed by no root of this property, but never inlined
 	Property string     `json:"property"`
 	Roots    []RootSpec `json:"roots"`
 	Effects  []string   `json:"effects,omitempty"` // effect names tracked for this property
@@ -552,6 +553,16 @@ func loadWorldWithSpecs() (*World, error) {
 				return nil, err
 			}
 			w.UsedMirror = append(w.UsedMirror, m)
+		}
+	}
+	if checks, err := loadChecks(); err == nil {
+		for _, c := range checks {
+			for _, r := range c.Roots {
+				w.NoInline[r.Func] = true
+			}
+			for _, d := range c.Deferred {
+				w.NoInline[d] = true
+			}
 		}
 	}
 	for name := range w.Specs.Contracts {
